@@ -355,6 +355,30 @@ def symmetry_rule(rep):
     rep.floor("C14.e", n, 5)
 
 
+def tombstone_rule(rep, f):
+    rep.rule("C14.f", "getElementById keeps finding what is in the tree: DOMNodeIDMap is an open-addressing table whose find() probes "
+             "until an empty (null) slot; DOMNodeIDMap::remove must therefore leave a non-null tombstone in the slot it frees — every "
+             "assignment to a slot of fTable in remove() stores a non-null constant — or the probe chains of later-inserted, "
+             "colliding IDs are cut and elements that are still in the document are no longer found")
+    n = 0
+    for x in f.kind("asg"):
+        if x["_fn"]["q"] != "DOMNodeIDMap::remove":
+            continue
+        l = x["lhs"]
+        if not (l[0] == "x" and l[1] == ["f", "DOMNodeIDMap::fTable"]):
+            continue
+        n += 1
+        r = x["rhs"]
+        while r[0] == "cast":
+            r = r[2]
+        nonnull = (r[0] == "i" and r[1] != 0) or (r[0] == "u" and r[1] == "-" and r[2][0] == "i" and r[2][1] != 0)
+        rep.ob("C14.f", "DOMNodeIDMap::remove@slot:%d" % n, nonnull, "freed slot keeps a tombstone (%s)" % sx_str(x["rhs"]) if nonnull else
+               "DOMNodeIDMap::remove (line %s) stores %s into the freed slot: find() stops probing at an empty slot, so IDs that were "
+               "inserted after a collision with this one are lost to getElementById" % (x.get("l"), sx_str(x["rhs"])),
+               "%s:%s" % (x["_fn"]["file"], x.get("l", 0)))
+    rep.floor("C14.f", n, 1)
+
+
 def run(rep):
     f = core.library_facts()
     rep.units.update(os.path.relpath(t, core.REPO) for t in f.tus)
@@ -363,6 +387,7 @@ def run(rep):
     registry_rule(rep, f)
     initial_state_rule(rep, f)
     symmetry_rule(rep)
+    tombstone_rule(rep, f)
     diag.run(rep, f, "C14")
     from ..engines import dispatch
     dispatch.run(rep, f, "C14")
